@@ -12,6 +12,7 @@ package shmipc
 //   g <i> <k> <c>                                one step of goroutine i; if an OnData call starts in it, that call consumes
 //                                                min(k, Len) bytes and calls Close iff c = 1
 //   u                                            one step of the user's Close
+//   setcb                                        a second SetCallbacks call (refused; must change nothing)
 //   finish                                       deterministic completion
 
 import (
@@ -512,6 +513,13 @@ func c20Exec(ops []string) vResult {
 			}
 			c.checkQuiescent("after " + op)
 			out = append(out, c.snap())
+		case started && len(f) == 1 && f[0] == "setcb":
+			// the application calls SetCallbacks a second time: refused, and nothing else may change
+			if err := c.st.SetCallbacks(&c20CB{c: c}); err != ErrStreamCallbackHadExisted {
+				c.setFail("second-setcallbacks-accepted", fmt.Sprintf("SetCallbacks on a stream that has callbacks returned %v", err))
+			}
+			c.tags["setcallbacks-again"] = true
+			out = append(out, "refused "+c.snap())
 		case started && len(f) == 1 && f[0] == "finish":
 			c.finish()
 			c.checkQuiescent("after finish")
@@ -604,8 +612,10 @@ func c20Gen(r *rand.Rand, tier string, idx int) []string {
 				ops = append(ops, "e")
 			}
 		default:
-			if r.Intn(3) == 0 {
+			if z := r.Intn(6); z < 2 {
 				ops = append(ops, "finish")
+			} else if z == 2 {
+				ops = append(ops, "setcb")
 			} else {
 				ops = append(ops, gop(r.Intn(ng+1)))
 			}
